@@ -334,6 +334,12 @@ def classifyGlyphs(unicodeFunc, cmap, gsub=None, extra_substitutions=None):
         else:
             glyphSets.setdefault(key_or_keys, set()).add(glyphName)
 
+    # a glyph that is also mapped from a non-neutral code point (e.g. "mu" from both
+    # U+03BC GREEK SMALL LETTER MU and U+00B5 MICRO SIGN) is not neutral: what is
+    # reachable from it belongs with the glyph, not with the neutral ones
+    for glyphs in glyphSets.values():
+        neutralGlyphs -= glyphs
+
     if gsub is not None:
         if neutralGlyphs:
             closeGlyphsOverGSUB(gsub, neutralGlyphs)
